@@ -1,8 +1,17 @@
 """E6 `sandbox` — observe aborts, panics, hangs and memory blow-ups instead of dying of them.
 
-    pool = Pool(flavour="rust"|"rust-release"|"py"|None, setup="props.C03:sb_setup", setup_arg=...)
-    obs  = pool.map_observe("props.C03:sb_decode", inputs)      # one Obs per input, same order
+    pool = Pool(flavour="rust"|"rust-release"|"py"|None, setup="pkg.mod:fn", setup_arg=..., workers=1,
+                rlimit_as=2 GiB, cpu_s=20, wall_s=30)
+    obs  = pool.map_observe("pkg.mod:fn", inputs, wall_s=.., cpu_s=.., max_timeouts=..)   # one Obs per input, same order
     pool.close()
+
+    get_pool(flavour, setup=..., setup_arg=...)   per-process cached single-slot pool (for use inside pmap workers)
+    observe_all([(pool, fn, inputs), ...])        several single-slot pools working at the same time
+    python engines/sandbox.py --selftest          abort / segv / kill / exit / MemoryError / mmap / sleep / spin
+
+flavour: "rust" = load the extensions built by common.rust_paths() by path before dulwich imports them;
+"py" = block the extension imports (== common.block_rust()) before dulwich is imported; None = as is.
+The template checks that the public names really are bound that way and reports the bindings in pool.info.
 
 Process tree (per pool slot)::
 
